@@ -943,7 +943,7 @@ class Gen:
             if sti == ti and not self.malformed:
                 return
             p = self.any_node(ti)
-            return self.do(["addtree", ti, p, sti, rng.choice([None, None, True, False, 0]), rng.choice([None, True, False])])
+            return self.do(["addtree", ti, p, sti, self.before_arg(ti, p), rng.choice([None, True, False])])
         if k == "copyto":
             sti = self.pick_tree()
             src = self.any_node(sti, root=True)
@@ -1220,6 +1220,25 @@ def gen_shapes(shapes, *, labelings=("distinct", "equal"), typed=(False,), famil
                 yield dict(univ=univ, setup=setup, alts=single_ops(nodes, univ, ty, families), label=lname + "/extra", n=n)
 
 
+def gen_addtree(typed=(False,)):
+    """Two-tree worlds: every add(tree)/copy_to(tree) argument combination."""
+    for ty in typed:
+        univ = ["s:a", "s:b", "s:c", "s:x", "s:y", "s:z"]
+        k = "k1" if ty else None
+        setup = [["new", ty, None], ["new", ty, None],
+                 ["add", 0, 0, 0, None, k, None], ["add", 0, 1, 5, None, k, None], ["add", 0, 0, 1, None, k, None], ["add", 0, 0, 2, None, k, None],
+                 ["add", 1, 0, 3, None, k, None], ["add", 1, 0, 4, None, k, None], ["add", 1, 5, 5, None, k, None]]
+        alts = []
+        for p, ch in ((0, [5, 6]), (5, [7]), (6, [])):
+            for b in before_choices(len(ch), ch, [1]):
+                for deep in (None, False):
+                    alts.append(["addtree", 1, p, 0, b, deep])
+            alts.append(["copyto", 0, 0, 1, p, False, None, True])
+        alts.append(["addtree", 0, 0, 1, None, None])
+        alts.append(["addtree", 1, 7, 1, None, None])
+        yield dict(univ=univ, setup=setup, alts=alts, label="addtree" + ("/typed" if ty else ""), n=7)
+
+
 def gen_exhaustive(nmax, *, labelings=("distinct", "equal", "clones"), typed=(False,), families=None, nmin=0):
     """Yields groups dict(univ=, setup=[ops], alts=[op*]): every single op with every argument
     on every ordered forest with nmin..nmax nodes."""
@@ -1321,6 +1340,7 @@ def renumber(op, dropped):
 # Minimal witnesses of repaired defects (each fails an oracle on the unchanged code)
 # ---------------------------------------------------------------------------
 CORPUS: list = [
+ {"id": "D70", "univ": ["s:a", "s:b", "s:x", "s:y"], "ops": [["new", False, None], ["new", False, None], ["add", 0, 0, 0, None, None, None], ["add", 0, 0, 1, None, None, None], ["add", 1, 0, 2, None, None, None], ["add", 1, 0, 3, None, None, None], ["addtree", 1, 0, 0, {"n": 4}, None]]},
  {"id": "D48", "univ": ["s:a", "s:b"], "ops": [["new", False, None], ["add", 0, 0, 0, None, None, None], ["from_dict", 0, 1, [[1, None, []], [1, None, []]]]]},
  {
   "id": "D01",
